@@ -19,6 +19,7 @@ RULE = ('labels: the real write_label on a real Builder for (n, m, pattern in {z
         'every antichain of trie cells replaced by pruned branches (incl. the root): parsers return exactly the leaves/extras of the unpruned part. '
         'non-trivial = label length >= 2 or >= 2 keys; states = distinct labels / encodings; transitions = write_label / parse calls; traces = '
         'encodings compared with the reference')
+RULE += ' Fifth session: the same non-injective value functions for the canonical hash and for the parsers (canonical labels + every single non-canonical edge, all prunings); HashMap.from_cell(tree).serialize() is the canonical tree for every valid (non-canonical, pruned) input tree.'
 LEVEL_TEXT = ('Bounded-exhaustive: the label-kind decision is checked on its whole domain (all ~1.5M (n,m,pattern) triples in thorough), canonical tree '
               'hashes on all small key sets, and the parsers on every valid label-kind assignment and every pruning of every small trie, against an '
               'independent Patricia-trie model that follows dict.cpp.')
